@@ -1,1 +1,254 @@
-/-! Property theorems for C03 (only property-level statements and non-vacuity examples live here). -/
+import SpoxModel.Lemmas.Renames
+import SpoxModel.Lemmas.Front
+import SpoxModel.Lemmas.Reach
+import SpoxModel.Generated.RenamesIR
+/-!
+# C03 — the model's inputs and outputs are exactly what was requested
+
+Property theorems only. `build` is `Front.build` run through the IR of `_temporary_renames`
+extracted from /repo on this run; `π` stands for the iteration order of Python sets and is
+universally quantified (any permutation).
+-/
+namespace C03
+open Renames Front
+
+abbrev ir := Generated.RenamesIR.ir
+
+theorem generated_good : goodShape ir = true := by decide
+
+def info (P : List Obj) (e : Entry) : VInfo := ⟨e.name, tyOf P e.obj⟩
+
+/-- "some output depends on `a`, directly or through any depth of subgraph" (and `a` is not a formal
+    argument of a subgraph): membership in `all_arguments - claimed_arguments`; see `freeArgs_spec`. -/
+def dependsOn (P : List Obj) (outs : List Entry) (a : Nat) : Bool := (freeArgs P outs).contains a
+
+/-- A request the property's success/KeyError clauses talk about. -/
+structure WellFormed (P : List Obj) (req : Request) : Prop where
+  inputsArgs : ∀ e ∈ req.inputs, isArg P e.obj = true
+  outputsVars : ∀ e ∈ req.outputs, isVar P e.obj = true
+  outputsNonempty : req.outputs ≠ []
+  keysNodup : (req.inputs.map (·.name)).Nodup            -- dictionary keys
+  objsNodup : (req.inputs.map (·.obj)).Nodup             -- no Var under two keys
+  namesDisjoint : ∀ e ∈ req.outputs, e.name ∉ req.inputs.map (·.name)
+  programOk : (mainInfo P req.outputs).bad = false ∧
+    (∀ a ∈ (mainInfo P req.outputs).claimed, a ∉ (mainInfo P req.outputs).used)   -- no leaked body argument
+  notFormals : ∀ e ∈ req.inputs, e.obj ∉ (mainInfo P req.outputs).claimed
+
+/-- `drop_unused_inputs=False`: the graph inputs are exactly the entries of `inputs` — same names,
+    same order, same types. -/
+theorem inputs_exact (P : List Obj) (π : List Nat → List Nat) (fixed : Bool) (ins outs : List Entry)
+    (s : Store) (m : Model)
+    (h : (build ir P π fixed ⟨ins, outs, false⟩ s).2 = .ok m) :
+    m.inputs = ins.map (info P) := by
+  have hir : ir = fixedIR := goodShape_eq generated_good
+  rw [hir] at h
+  have hb := build_ok h
+  rw [body_eq] at hb
+  obtain ⟨hdup, _, hm⟩ := bodyA_ok hb
+  have hargs : argsOf P π ⟨ins, outs, false⟩ = ins.map (·.obj) := by simp [argsOf]
+  rw [hargs] at hdup hm
+  have hobjs : (ins.map (·.obj)).Nodup := (hasDup_false_iff _).mp hdup
+  rw [hm]
+  simp only [Bool.false_and, Bool.false_eq_true, if_false, List.map_map]
+  apply List.map_congr_left
+  intro e he
+  have := enter_entry ⟨ins, outs, false⟩ s hobjs e he
+  simp only [Function.comp, vinfo, info, this, Option.getD_some]
+
+/-- The graph outputs are exactly the entries of `outputs`, each bound to the Var it was given. -/
+theorem outputs_exact (P : List Obj) (π : List Nat → List Nat) (fixed : Bool) (req : Request)
+    (s : Store) (m : Model)
+    (h : (build ir P π fixed req s).2 = .ok m) :
+    m.outputs = req.outputs.map (info P) ∧ m.outVars = req.outputs.map (·.obj) := by
+  have hir : ir = fixedIR := goodShape_eq generated_good
+  rw [hir] at h
+  have hb := build_ok h
+  rw [body_eq] at hb
+  obtain ⟨_, _, hm⟩ := bodyA_ok hb
+  rw [hm]
+  exact ⟨rfl, rfl⟩
+
+/-- `drop_unused_inputs=True`: the graph inputs are exactly the entries on which some output
+    depends, **in their given relative order**, for every set-iteration order `π`. -/
+theorem inputs_dropped (P : List Obj) (π : List Nat → List Nat) (hπ : ∀ l, (π l).Perm l)
+    (ins outs : List Entry) (s : Store) (m : Model)
+    (hkeys : (ins.map (·.name)).Nodup) (hobjs : (ins.map (·.obj)).Nodup)
+    (hunnamed : ∀ v, v ∉ ins.map (·.obj) → s v = none)
+    (h : (build ir P π true ⟨ins, outs, true⟩ s).2 = .ok m) :
+    m.inputs = (ins.filter (fun e => dependsOn P outs e.obj)).map (info P) := by
+  have hir : ir = fixedIR := goodShape_eq generated_good
+  rw [hir] at h
+  have hb := build_ok h
+  rw [body_eq] at hb
+  obtain ⟨_, hfor, hm⟩ := bodyA_ok hb
+  have hargs : argsOf P π ⟨ins, outs, true⟩ = π (freeArgs P outs) := by simp [argsOf]
+  rw [hargs] at hfor hm
+  rw [hm]
+  simp only [Bool.and_self, if_true]
+  rw [← filterMap_ite]
+  apply filterMap_congr'
+  intro e he
+  have hname := enter_entry ⟨ins, outs, true⟩ s hobjs e he
+  have hlisted : e.obj ∈ ins.map (·.obj) := List.mem_map.mpr ⟨e, he, rfl⟩
+  -- an argument of the set whose value info carries `e`'s name is `e`'s Var
+  have hsame : ∀ b ∈ π (freeArgs P outs),
+      ((vinfo P (enter (kwargs ⟨ins, outs, true⟩) s) b).name == e.name) = true → b = e.obj := by
+    intro b hb hn
+    simp only [vinfo, beq_iff_eq] at hn
+    apply named_inj ⟨ins, outs, true⟩ s hkeys b e.obj
+      (listed_of_not_foreign ⟨ins, outs, true⟩ s hunnamed b (hfor b hb)) hlisted
+    rw [hn, hname, Option.getD_some]
+  by_cases hc : dependsOn P outs e.obj = true
+  · rw [if_pos hc]
+    have hmem : e.obj ∈ π (freeArgs P outs) :=
+      (hπ _).mem_iff.mpr (List.contains_iff_mem.mp hc)
+    have hinfo : vinfo P (enter (kwargs ⟨ins, outs, true⟩) s) e.obj = info P e := by
+      simp only [vinfo, info, hname, Option.getD_some]
+    rw [← hinfo]
+    apply find?_unique
+    · exact List.mem_map.mpr ⟨e.obj, hmem, rfl⟩
+    · rw [hinfo]; simp [info]
+    · intro y hy hpy
+      obtain ⟨b, hb, rfl⟩ := List.mem_map.mp hy
+      rw [hsame b hb hpy]
+  · rw [if_neg hc, List.find?_eq_none]
+    intro y hy hpy
+    obtain ⟨b, hb, rfl⟩ := List.mem_map.mp hy
+    have := hsame b hb hpy
+    subst this
+    exact hc (List.contains_iff_mem.mpr ((hπ _).mem_iff.mp hb))
+
+/-- the witness program: `y = op(b, a)` over two arguments `a` (id 0) and `b` (id 1) -/
+def exP : List Obj :=
+  [⟨true, false, "1:[]", [1, 0], []⟩, ⟨true, true, "1:[]", [], []⟩, ⟨true, true, "7:[]", [], []⟩]
+def exIns : List Entry := [⟨"a", 0⟩, ⟨"b", 1⟩]
+def exOuts : List Entry := [⟨"y", 2⟩]
+def inputsOf (r : Except Err Model) : Option (List VInfo) :=
+  match r with | .ok m => some m.inputs | .error _ => none
+
+/-- Before the fix (`fixed = false`) the order was that of the set: the statement above fails for
+    some `π` (here: the set happens to iterate newest first). -/
+theorem inputs_dropped_counterexample :
+    inputsOf (build ir exP id false ⟨exIns, exOuts, true⟩ (fun _ => none)).2
+      = some [⟨"b", "1:[]"⟩, ⟨"a", "7:[]"⟩] ∧
+    (exIns.filter (fun e => dependsOn exP exOuts e.obj)).map (info exP) = [⟨"a", "7:[]"⟩, ⟨"b", "1:[]"⟩] := by
+  decide
+
+/-- Non-vacuity: the same request on the fixed code, same `π`. -/
+example : inputsOf (build ir exP id true ⟨exIns, exOuts, true⟩ (fun _ => none)).2
+      = some [⟨"a", "7:[]"⟩, ⟨"b", "1:[]"⟩] := by decide
+
+/-- If some output depends on an argument that is not listed, build raises KeyError (both flag
+    values, every `π`). -/
+theorem missing_input_keyerror (P : List Obj) (π : List Nat → List Nat) (hπ : ∀ l, (π l).Perm l)
+    (fixed : Bool) (req : Request) (s : Store) (hwf : WellFormed P req)
+    (hunnamed : ∀ v, v ∉ req.inputs.map (·.obj) → s v = none)
+    (a : Nat) (ha : dependsOn P req.outputs a = true) (hmiss : a ∉ req.inputs.map (·.obj)) :
+    (build ir P π fixed req s).2 = .error .key := by
+  have hir : ir = fixedIR := goodShape_eq generated_good
+  rw [hir, build_checked P π fixed req s hwf.inputsArgs hwf.outputsVars hwf.outputsNonempty,
+    body_wf P π hπ fixed req s hwf.objsNodup hwf.namesDisjoint hwf.programOk.1 hwf.programOk.2
+      hwf.notFormals hunnamed]
+  have hfree : a ∈ freeArgs P req.outputs := List.contains_iff_mem.mp ha
+  split
+  · rfl
+  · rename_i h3
+    have h3f : (freeArgs P req.outputs).any (fun a => !(argsOf P π req).contains a) = false := by
+      cases hc : (freeArgs P req.outputs).any (fun a => !(argsOf P π req).contains a) with
+      | false => rfl
+      | true => exact absurd hc h3
+    have h3' := List.any_eq_false.mp h3f a hfree
+    have hmem : a ∈ argsOf P π req := by
+      cases hc : (argsOf P π req).contains a with
+      | true => exact List.contains_iff_mem.mp hc
+      | false => rw [hc] at h3'; exact absurd rfl h3'
+    have : (argsOf P π req).any
+        (fun a => foreign (req.inputs.map (·.name)) (enter (kwargs req) s a)) = true :=
+      List.any_eq_true.mpr ⟨a, hmem, foreign_unlisted req s hunnamed a hmiss⟩
+    rw [if_pos this]
+
+/-- Inputs that are not arguments raise TypeError. -/
+theorem non_argument_typeerror (P : List Obj) (π : List Nat → List Nat) (fixed : Bool) (req : Request)
+    (s : Store) (e : Entry) (he : e ∈ req.inputs) (hna : isArg P e.obj = false) :
+    (build ir P π fixed req s).2 = .error .type := by
+  have hir : ir = fixedIR := goodShape_eq generated_good
+  rw [hir, build_fixed]
+  have h3 : req.inputs.all (fun e => isArg P e.obj) = false := by
+    cases hc : req.inputs.all (fun e => isArg P e.obj) with
+    | false => rfl
+    | true =>
+      have := List.all_eq_true.mp hc e he
+      rw [hna] at this; cases this
+  split
+  · rfl
+  split
+  · rfl
+  simp [h3]
+
+/-- Outputs that are not Vars raise TypeError. -/
+theorem non_var_output_typeerror (P : List Obj) (π : List Nat → List Nat) (fixed : Bool) (req : Request)
+    (s : Store) (e : Entry) (he : e ∈ req.outputs) (hnv : isVar P e.obj = false) :
+    (build ir P π fixed req s).2 = .error .type := by
+  have hir : ir = fixedIR := goodShape_eq generated_good
+  rw [hir, build_fixed]
+  have h2 : req.outputs.all (fun e => isVar P e.obj) = false := by
+    cases hc : req.outputs.all (fun e => isVar P e.obj) with
+    | false => rfl
+    | true =>
+      have := List.all_eq_true.mp hc e he
+      rw [hnv] at this; cases this
+  split
+  · rfl
+  simp [h2]
+
+/-- Non-vacuity of the success clauses: a well-formed request that lists every argument the
+    outputs depend on does build. -/
+theorem valid_request_builds (P : List Obj) (π : List Nat → List Nat) (hπ : ∀ l, (π l).Perm l)
+    (fixed : Bool) (req : Request) (s : Store) (hwf : WellFormed P req)
+    (hunnamed : ∀ v, v ∉ req.inputs.map (·.obj) → s v = none)
+    (hall : ∀ a, dependsOn P req.outputs a = true → a ∈ req.inputs.map (·.obj)) :
+    ∃ m, (build ir P π fixed req s).2 = .ok m := by
+  have hir : ir = fixedIR := goodShape_eq generated_good
+  rw [hir, build_checked P π fixed req s hwf.inputsArgs hwf.outputsVars hwf.outputsNonempty,
+    body_wf P π hπ fixed req s hwf.objsNodup hwf.namesDisjoint hwf.programOk.1 hwf.programOk.2
+      hwf.notFormals hunnamed]
+  have hsub : ∀ a, a ∈ freeArgs P req.outputs → a ∈ req.inputs.map (·.obj) :=
+    fun a ha => hall a (List.contains_iff_mem.mpr ha)
+  have h3 : (freeArgs P req.outputs).any (fun a => !(argsOf P π req).contains a) = false := by
+    rw [List.any_eq_false]
+    intro a ha
+    have : a ∈ argsOf P π req := by
+      unfold argsOf
+      cases hd : req.drop with
+      | true => rw [if_pos rfl]; exact (hπ _).mem_iff.mpr ha
+      | false => simp only [Bool.false_eq_true, if_false]; exact hsub a ha
+    simp only [Bool.not_eq_true', Bool.not_eq_false]
+    exact List.contains_iff_mem.mpr this
+  have h5 : (argsOf P π req).any
+      (fun a => foreign (req.inputs.map (·.name)) (enter (kwargs req) s a)) = false := by
+    rw [List.any_eq_false]
+    intro a ha
+    have : a ∈ req.inputs.map (·.obj) := by
+      unfold argsOf at ha
+      cases hd : req.drop with
+      | true => rw [hd, if_pos rfl] at ha; exact hsub a ((hπ _).mem_iff.mp ha)
+      | false => rw [hd] at ha; simpa using ha
+    rw [foreign_listed req s a this]
+    simp
+  rw [h3, h5]
+  exact ⟨_, rfl⟩
+
+/-- `discover_all_arguments_spec`: what `dependsOn` means. For any program (every reference points
+    to an older object — true of every Python program) the arguments that `discover` finds free
+    (`all_arguments - claimed_arguments`) are exactly the Argument Vars some output reaches through
+    input edges and through results of subgraph bodies, **to any depth**, that are not formal
+    arguments of a subgraph reached on the way. -/
+theorem discover_all_arguments_spec (P : List Obj) (hwf : WF P) (outs : List Entry)
+    (houts : ∀ e ∈ outs, e.obj < P.length) (a : Nat) :
+    dependsOn P outs a = true ↔
+      (∃ e ∈ outs, Reach P e.obj a) ∧ ArgObj P a ∧ ¬ ∃ e ∈ outs, Bound P e.obj a := by
+  unfold dependsOn
+  rw [List.contains_iff_mem]
+  exact freeArgs_spec P hwf outs houts a
+
+end C03
